@@ -7,7 +7,7 @@ EXPLANATION = ('The real IPv4 / IPv6 / GUID patterns are read from the /repo res
                'the public recogniser inside a carrier sentence, and the canonicaliser drop_leading_zeros is confirmed by CrossHair on symbolic digit strings.')
 ASSUMPTIONS = ['the word-boundary assertions at the pattern edges are stripped and reported; token isolation is exercised only by the API composition check on solver witnesses',
                '\\d is read as ASCII digits (Unicode digits are accepted by the real engine: observation N1, outside the ASCII quantifier of the property)']
-OUTSIDE = ['e-mail, URL, hashtag, mention and phone-number patterns (nested look-arounds: not encodable by the translator; not built)',
+OUTSIDE = ['exact (two-sided) language claims for e-mail, URL, hashtag, mention and phone patterns: only the inclusion of well-formed layouts in the over-approximated patterns is decided (O13.5)',
            'which match a backtracking engine prefers inside longer text (only token-isolated witnesses are run through the API)']
 S = 'recognizers_sequence.'
 
@@ -30,4 +30,17 @@ def obligations(tier):
                     'the other groups and the separators untouched (the end-of-text branch of the function is separate code)',
               bounds='every group string over the digit alphabet up to 3 characters / the hex alphabet up to 3 (thorough 4) characters', encodes=[S + 'sequence.parsers:BaseIpParser.drop_leading_zeros'],
               engine='CrossHair symbolic execution (symbolic str), z3 per path')]
+    L = 'harness.layouts:'
+    seq = [('email', 'address'), ('hashtag', 'tag'), ('mention', 'user'), ('url', 'scheme-host-path'), ('url', 'www-host'), ('url', 'bare-host'),
+           ('phone', 'us-dashed'), ('phone', 'us-paren'), ('phone', 'us-plus1'), ('phone', 'seven')]
+    sl = [{'kind': k, 'culture': 'en-us', 'layout': l} for k, l in seq]
+    obs.append(Ob('O13.5-sequence-language', 'fn', L + 'inclusion', slices=sl, timeout=t,
+                  descr='every well-formed e-mail address, hashtag, mention, URL with a listed TLD (three layouts) and phone number (four North-American layouts) is fully matched by one of the '
+                        'patterns the English sequence extractor compiles (necessary condition for recognition; unbounded over the layout language)',
+                  bounds='layout languages: local part / host labels of 1..8 alphanumerics with ._+- separators, any number of labels; tags and user names of 1..12 characters',
+                  engine='z3 regular-expression solver on an over-approximating translation of the real pattern sources (assertions dropped)',
+                  encodes=[S + 'sequence.extractors:BaseEmailExtractor', S + 'sequence.extractors:BaseURLExtractor', S + 'sequence.extractors:BasePhoneNumberExtractor']))
+    obs.append(Ob('O13.5-sequence-api', 'fn', L + 'api_members', slices=[dict(x, n=12 if tier == 'quick' else 80) for x in sl], timeout=t,
+                  descr='composition check: solver-generated members of each layout come back from recognize_email / _hashtag / _mention / _url / _phone_number as one entity whose value equals its text',
+                  bounds='12 (thorough 80) z3 models per layout; validation of the composition, not a universal verdict'))
     return obs
